@@ -11,13 +11,15 @@ void h_charge(void)         { TRACER *t; SPFI *ptr; tr_charge(t, ptr);
 #endif
 #ifdef CV_HAS_tr_invoke
 void h_tracer_resume(void)  { SPV *ret; AWT *x; cv_i8 *ctx; tr_invoke(ret, x, ctx);
-                              SENT(gh_c0 == 1, "tracer holds the last reference"); SENT(gh_c0 > 1, "handles still alive when the tracer is resumed"); }
+                              SENT(gh_c0 == 1, "tracer holds the last reference"); SENT(gh_c0 > 1, "handles still alive when the tracer is resumed");
+                              SENT(gh_c0 == 1 && gh_exc0, "tracer releases a state that holds an exception"); }
 #endif
 #ifdef CV_HAS_sf_dtor
 void h_dtor(void)           { SF *p; sf_dtor(p);
                               SENT(gh_cb0 == 0, "~shared_future of an empty handle"); SENT(gh_cb0 != 0 && gh_pend0, "~shared_future while pending");
                               SENT(gh_cb0 != 0 && !gh_pend0 && gh_c0 > 1, "~shared_future, resolved, other handles remain");
-                              SENT(gh_cb0 != 0 && gh_c0 == 1, "~shared_future of the last owner"); }
+                              SENT(gh_cb0 != 0 && gh_c0 == 1, "~shared_future of the last owner");
+                              SENT(gh_cb0 != 0 && gh_c0 == 1 && gh_exc0, "~shared_future of the last owner, stored exception"); SENT(gh_cb0 != 0 && gh_c0 > 1 && gh_exc0, "~shared_future, stored exception, copies remain"); }
 #endif
 #ifdef CV_HAS_sf_copy_ctor
 void h_copy_ctor(void)      { SF *p, *q; sf_copy_ctor(p, q); SENT(gh_cb0 == 0, "copy of an empty handle"); SENT(gh_cb0 != 0, "copy of a non-empty handle"); }
@@ -27,7 +29,8 @@ void h_copy_assign(void)    { SF *p, *q; sf_copy_assign(p, q);
                               SENT(gh_alias, "assignment between two handles of the same state");
                               SENT(!gh_alias && gh_cb0 == 0 && gh_cb1 == 0, "empty = empty"); SENT(!gh_alias && gh_cb0 == 0 && gh_cb1 != 0, "empty = non-empty");
                               SENT(!gh_alias && gh_cb0 != 0 && gh_cb1 == 0 && gh_c0 == 1, "last owner = empty"); SENT(!gh_alias && gh_cb0 != 0 && gh_cb1 != 0 && gh_c0 > 1, "non-empty = other state, old state survives");
-                              SENT(!gh_alias && gh_cb0 != 0 && gh_cb1 != 0 && gh_c0 == 1, "last owner = other state"); }
+                              SENT(!gh_alias && gh_cb0 != 0 && gh_cb1 != 0 && gh_c0 == 1, "last owner = other state");
+                              SENT(!gh_alias && gh_cb0 != 0 && gh_c0 == 1 && gh_exc0, "last owner of a state with a stored exception = ..."); }
 #endif
 #ifdef CV_HAS_sf_ctor_pfn
 void h_ctor_promise(void)   { SF *p; PFN *fn; sf_ctor_pfn(p, fn);
@@ -47,11 +50,16 @@ void h_get_promise(void)    { PROMISE *r; SF *p; sf_get_promise(r, p); SENT(1, "
 void h_ready(void)          { SF *p; cv_i1 r = sf_ready(p); SENT(gh_cb0 == 0, "ready() on an empty handle"); SENT(gh_cb0 != 0 && r, "ready() true"); SENT(gh_cb0 != 0 && !r, "ready() false"); }
 #endif
 #ifdef CV_HAS_sf_value
-void h_value(void)          { SF *p; sf_value(p); SENT(gh_cb0 == 0, "value() on an empty handle"); SENT(gh_cb0 != 0 && cv_exc_pending == 0, "value() returns the value"); SENT(gh_cb0 != 0 && cv_exc_pending != 0, "value() throws"); }
+void h_value(void)          { SF *p; sf_value(p); SENT(gh_cb0 == 0, "value() on an empty handle"); SENT(gh_cb0 != 0 && cv_exc_pending == 0, "value() returns the value"); SENT(gh_cb0 != 0 && cv_exc_pending != 0 && !gh_exc0, "value() throws"); SENT(gh_exc0, "value() rethrows the stored exception"); }
 #endif
 #ifdef CV_HAS_sf_wait
 void h_wait(void)           { SF *p; sf_wait(p); SENT(1, "after wait"); }
 #endif
 #ifdef CV_HAS_sf_co_await
 void h_co_await(void)       { COAW *r; SF *p; sf_co_await(r, p); SENT(1, "after operator co_await"); }
+#endif
+#ifdef CV_HAS_sf_shift
+void h_shift(void)          { SF *p; FFN *fn; sf_shift(p, fn);
+                              SENT(gh_env_choice == 0, "operator<<, the new operation is pending"); SENT(gh_env_choice == 1, "operator<<, ready with value"); SENT(gh_env_choice == 2, "operator<<, ready without value");
+                              SENT(gh_exc0, "operator<< replaces a stored exception"); SENT(!gh_exc0 && gh_c0 > 1, "operator<< on a state shared by several handles"); }
 #endif
